@@ -109,8 +109,17 @@ fn render(e: &Expr, r: u64, h: u64) -> (String, bool) {
         _ => (add_parens(e, mix(h, 23), &mut 0), ParenMode::Minimal),
     };
     // the outermost redundant parenthesis is fine too
-    let toks = tokens(&expr, mode);
+    let mut toks = tokens(&expr, mode);
     let hv = mix(h, 100 + r);
+    // the lexer also knows `**` as a spelling of the power operator (same grammar rule as `^`): the random
+    // layouts use it for half of their renderings, so that the alias has the same precedence everywhere
+    if lay >= 5 && (hv >> 58) & 1 == 1 {
+        for t in toks.iter_mut() {
+            if t.text == "^" {
+                t.text = "**".to_string();
+            }
+        }
+    }
     let blanks = ["", " ", "\t "];
     let (choices, lead, trail): (Vec<u8>, &str, &str) = match lay {
         0 => (vec![1], "", ""),
@@ -252,7 +261,7 @@ fn rand_case(depth: u32) -> impl Strategy<Value = RandCase> {
 }
 
 pub fn run_check(ctx: &Ctx) {
-    ctx.set_rule("all operator sequences over + - * / ^ up to the stated length x all binary tree shapes (Catalan), operands from fixed pools, each AST rendered in 32 ways (minimal / full / two redundant parenthesisations x 8 blank layouts incl. no blanks where allowed, double blanks, tabs, leading/trailing blanks); plus `to`/round/floor/ceil variants and random deeper trees; oracle = reference evaluation of the AST; non-trivial = operators of >=2 precedence levels, or a grouped right operand, or nested parentheses, or a non-canonical rendering; distinct by query text");
+    ctx.set_rule("all operator sequences over + - * / ^ up to the stated length x all binary tree shapes (Catalan), operands from fixed pools, each AST rendered in 32 ways (minimal / full / two redundant parenthesisations x 8 blank layouts incl. no blanks where allowed, double blanks, tabs, leading/trailing blanks; the random layouts spell the power operator `**` half of the time); plus `to`/round/floor/ceil variants and random deeper trees; oracle = reference evaluation of the AST; non-trivial = operators of >=2 precedence levels, or a grouped right operand, or nested parentheses, or a non-canonical rendering; distinct by query text");
     ctx.assume("blank policy: + - and `to` always have a blank on both sides; no blank is omitted next to a unit or phrase (a blank next to * or / ends a unit expression in this grammar)");
     let corpus: Vec<(String, QCase)> = load_corpus("C06");
     let cases: Vec<QCase> = corpus.into_iter().map(|c| c.1).collect();
